@@ -224,22 +224,24 @@ FillVerdict(e) ==
 
 \* ------------------------------------------------------------------ cbca aggregation (C11) ----------
 \* e.out[r][c][k] = <<n, d>> rational (or <<NaN, 1>>)
-AggCellFail(e, x) ==
+AggCellFail(e, T, x) ==
    LET r == x[1][1]  c == x[1][2]  k == x[2]  D == e.first + k - 1
        got == e.out[r][c][k]
    IN IF e.cv[r][c][k] = NaN THEN (IF got[1] # NaN THEN {"nan_stays_nan"} ELSE {})
       ELSE IF got[1] = NaN THEN {"no_new_nan"}
       ELSE IF ~(IsNum(got) /\ got[2] > 0 /\ HasCorr(e, c, D) /\ InCrop(e, <<"L", 0>>, r, c)
-                /\ RatEq(got, <<AggSum(e, r, c, D, k), AggCount(e, r, c, D)>>)) THEN {"support_region_average"} ELSE {}
+                /\ RatEq(got, <<AggSumTab(e, T, r, c, D, k), AggCountTab(e, T, r, c, D)>>)) THEN {"support_region_average"} ELSE {}
 AggVerdict(e) ==
-   LET cells == Pix(e) \X (1..Len(e.cv[1][1]))
-       bad == {x \in cells : AggCellFail(e, x) # {}}
-   IN [failed |-> UNION {AggCellFail(e, x) : x \in cells},
+   LET T == ArmTable(e)
+       cells == Pix(e) \X (1..Len(e.cv[1][1]))
+       fails == [x \in cells |-> AggCellFail(e, T, x)]
+       bad == {x \in cells : fails[x] # {}}
+   IN [failed |-> UNION {fails[x] : x \in cells},
        detail |-> IF bad = {} THEN <<>>
                   ELSE LET x == CHOOSE y \in bad : TRUE
                        IN <<x[1][1], x[1][2], x[2], e.cv[x[1][1]][x[1][2]][x[2]], e.out[x[1][1]][x[1][2]][x[2]],
-                            IF e.cv[x[1][1]][x[1][2]][x[2]] # NaN /\ InCrop(e, <<"L", 0>>, x[1][1], x[1][2])
-                            THEN <<AggSum(e, x[1][1], x[1][2], e.first + x[2] - 1, x[2]), AggCount(e, x[1][1], x[1][2], e.first + x[2] - 1)>>
+                            IF e.cv[x[1][1]][x[1][2]][x[2]] # NaN /\ InCrop(e, <<"L", 0>>, x[1][1], x[1][2]) /\ HasCorr(e, x[1][2], e.first + x[2] - 1)
+                            THEN <<AggSumTab(e, T, x[1][1], x[1][2], e.first + x[2] - 1, x[2]), AggCountTab(e, T, x[1][1], x[1][2], e.first + x[2] - 1)>>
                             ELSE <<>>>>]
 
 \* ------------------------------------------------------------------ confidence measures (C12) --------
